@@ -1,7 +1,7 @@
 """C01 - ELF file, section and program headers are decoded exactly as encoded."""
 import io
 
-from vf import usage
+from vf import usage, streams
 from vf.enc import elf as W
 from vf import registry
 from vf.choose import RndChooser, composite_from
@@ -191,8 +191,10 @@ def run_case(ctx, case):
         raise
     machine = m.get('e_machine', 62)
     valid = not m.get('invalid_links')
+    st0, skind = streams.pick(data) if len(data) < (4 << 20) else (io.BytesIO(data), 'bytesio')   # BytesIO, minimal object, memory map or real file
+    ctx.count('stream.' + skind)
     try:
-        ef = ELFFile(io.BytesIO(data))
+        ef = ELFFile(st0)
     except ELFError as e:
         if valid:
             ctx.fail_exc('open' if R['shnum'] else 'open|no-section-header-table', e, case)
@@ -401,7 +403,7 @@ def run_case(ctx, case):
         ctx.count('isolation.checked')
     # --- a copy of the object (ELFStructs implements the pickle protocol; copy / pickle / multiprocessing rebuild it from its state)
     #     decodes exactly like the original
-    if (seen or segseen) and valid:
+    if (seen or segseen) and valid and skind == 'bytesio':          # only in-memory streams can be copied
         import copy
         import pickle
         try:
